@@ -266,7 +266,7 @@ def ashr(a, b, w):
             b = w - 1
         if type(a) is not E:
             return (sgn(a, w) >> b) & mask(w)
-        return sext(extract(a, w - 1, b), w)
+        return sext(extract(a, w - 1, b), w, w - b)
     if type(a) is not E and a == 0:
         return 0
     return mk('ashr', (a, b), w)
